@@ -14,7 +14,7 @@ RULE = ("cases = (seed k of kind int/negative/huge/str/bytes/float, sequence of 
         "Random() instance, fake again; oracle: the two in-process passes agree, and all configurations agree position by position "
         "(tagged encodings, floats by hex). Distinct by (seed kind, schema reprs); non-trivial = >=1 schema that draws.")
 ASSUMPTIONS = ["the harness's own case generator is hash-seed independent (self-check: schema reprs must agree across configurations, else inconclusive)"]
-TIERS = {"quick": dict(shards=16, cases=1600, hashseeds=["0", "1", "2"]),
+TIERS = {"quick": dict(shards=16, cases=4000, hashseeds=["0", "1", "2"]),
          "thorough": dict(shards=16, cases=40000, hashseeds=["0", "1", "2", "4242", "random", "random"])}
 
 
